@@ -142,6 +142,27 @@ class Prop(BaseProp):
                     has = "value" in ns[0]["opts"]
                     if has != (m.default is not None):
                         res.violate("attr-value-option", f"{m.name}: :value: present={has}, default={m.default!r}", wit)
+        # fields CMinx appends: a method's :param p:/:type p: fields sit directly in that method's entry; a variable's
+        # 'type' field sits directly in its own data entry
+        fields = []
+        for fn in dt.findall(nodes.field_name):
+            anc = doctree.entry_ancestors(fn)
+            fields.append((fn.astext(), uid_of(anc[0]["arg"]) if anc and anc[0]["dname"] != "module" else None))
+        for e in exp:
+            if e.kind == "class":
+                for m in e.methods + e.ctors:
+                    for i in range(min(len(m.types), len(m.params))):
+                        for lab in (f"param {m.params[i]}", f"type {m.params[i]}"):
+                            res.count("appended_fields_checked")
+                            owners = [u for t, u in fields if t == lab]
+                            if owners != [m.uid]:
+                                res.violate("field-outside-own-entry:method", f"field ':{lab}:' of {m.name} found under entries {owners}, "
+                                            f"expected [{m.uid}]", wit)
+            elif e.kind in ("data", "option"):
+                res.count("appended_fields_checked")
+                n_own = sum(1 for t, u in fields if t == "type" and u == e.uid)
+                if n_own != 1:
+                    res.violate("field-outside-own-entry:variable", f"{e.name}: {n_own} ':type:' fields directly in its entry", wit)
         # notes/warnings/field lists emitted by CMinx must sit inside some entry
         for cls in (nodes.note, nodes.warning, nodes.field_list):
             for n in dt.findall(cls):
